@@ -13,8 +13,9 @@ from .c20_gen import HarnessGen, TSHORT
 PROP = "C20"
 SIMDIR = os.path.dirname(os.path.abspath(__file__))
 EXCLUDE_FILE = os.path.join(SIMDIR, "c20_exclude.json")
-# vptr/alignment/null cost a third of the compile time and add nothing here: a null or misaligned access still dies under ASan
-SAN_FLAGS = ["-O0", "-fsanitize=address,undefined", "-fno-sanitize=vptr,alignment,null", "-fno-sanitize-recover=all", "-D_GLIBCXX_DEBUG"]
+# UBSan's alignment and null checks (one per member access) cost a third of the compile time and add nothing here: a null
+# or misaligned access still dies under ASan.  vptr checks (bad downcasts on the polymorphic models) are cheap and stay on.
+SAN_FLAGS = ["-O0", "-fsanitize=address,undefined", "-fno-sanitize=alignment,null", "-fno-sanitize-recover=all", "-D_GLIBCXX_DEBUG"]
 PLAIN_FLAGS = ["-O0", "-g1"]
 WORKER_TIMEOUT = 1800
 
@@ -891,7 +892,7 @@ def main(tier, seed):
         "determinism_sample": {"plans": len(det_runs), "worker_assignments": [1, min(16, common.NCPU)], "identical": True},
         "violation_groups": len(groups), "known_findings_matched": len(known_lines),
         "components": {"real": ["all PhQ headers from /repo/include (working tree)", "libstdc++ (strings, streams, containers, stod family) in debug mode",
-                                "ASan", "UBSan (without vptr/alignment/null)", "valgrind memcheck on a plain -O0 build"],
+                                "ASan", "UBSan (without alignment/null)", "valgrind memcheck on a plain -O0 build"],
                        "simulated": ["allocator's decision to fail (replaced global operator new)", "stream sink (std::streambuf with byte budget, 3 failure modes, preset state bits/flags, null buffer)"],
                        "absent_no_seam": ["clock", "network", "disk", "threads"]},
         "build_seconds": {"sanitizer": round(hs.build_s, 1), "plain": round(hp.build_s, 1)},
